@@ -82,6 +82,14 @@ CHECKS = {
                 ref='7 C20', note='Trusted base: the in-memory file system shim (vf/fakefs.py, cross-checked against a real directory), the crash model '
                      '(any prefix of the last event\'s bytes may be durable; earlier records are durable because every record is flushed and fsynced), '
                      'the stdlib-json stand-in for simplejson with JSON-native payloads only.'),
+    'C16': dict(level='model_checking', engine='E1',
+                technique='exhaustive enumeration of URL rules x methods x credential classes x session states through the Flask test client on the real objects',
+                text='Every rule of the URL map under /v1/peer/ (read from app.url_map at run time) x 7 methods x 5 credential classes x 9 '
+                     'session states is issued against a fresh replay of the state: without valid credentials 401, no state in the body, '
+                     'empty observation and unchanged canonical key; sending endpoints outside Established report failure with no effect; '
+                     'in Established every successful send (message pool, eBGP and iBGP, route-refresh x capability sets, bin_update) must '
+                     'put exactly one message on the tracked transport whose reference decoding equals the request (+LOCAL_PREF 100 iff iBGP).',
+                ref='7 C16', note=E1_NOTE),
 }
 
 NOT_YET = 'check not built yet in this session (see DESIGN.md section 7 for the plan); not claimed'
